@@ -49,6 +49,30 @@ def is_source(path):
     return category(path) != "asset"
 
 
+def contents_after(case, after):
+    """source path -> text after the first `after` operations"""
+    cur = {f[len("source/"):]: t for f, t in case["files"].items() if f.startswith("source/")}
+    for o in case["ops"][:after]:
+        if o["op"] in ("update", "create"):
+            cur[o["path"]] = o["text"]
+        elif o["op"] == "delete":
+            cur.pop(o["path"], None)
+    return cur
+
+
+def shared_outputs(case, after):
+    """generated pages which two extracts files of the contents after `after` operations both define (hypothesis `owns` of the
+    theorems fails there, and a clean build of such contents goes by the order in which the directory happens to be listed:
+    util.get_files does not sort file names)"""
+    owners = {}
+    for p, t in contents_after(case, after).items():
+        name = p.rsplit("/", 1)[-1]
+        if isinstance(t, str) and name.startswith("extracts-") and name.endswith(".yaml"):
+            for ref in set(re.findall(r"(?m)^ref:[ \t]*[\"']?([^\s\"']+)", t)):
+                owners.setdefault(p.rsplit("/", 1)[0] + f"/extracts/{ref}.rst", set()).add(p)
+    return sorted(k for k, v in owners.items() if len(v) > 1)
+
+
 def _run(case):
     return c12_e2e.run_history(case, want_store=(case.get("kind") == "corr"))
 
@@ -62,7 +86,8 @@ class C12(core.PropertyCheck):
     rule = ("generated projects: index + 1-3 pages (toctree, labels, :ref:/:doc: across pages incl. dangling ones, unknown directive), "
             "shared include, literalinclude'd file, figure, extracts or steps YAML with 1-3 entries (sometimes malformed) x histories of "
             "1-8 operations {update page/include/yaml (disk or editor buffer), update/delete asset, delete, create (new or re-created "
-            "file), postprocess} with freshly generated contents; dense (postprocess + comparison after every operation) and sparse "
+            "file), postprocess} with freshly generated contents; an entry moved between two YAML files (pasted, then cut / second file deleted / "
+            "paste undone / first file saved again and then cut); dense (postprocess + comparison after every operation) and sparse "
             "variants; every comparison is against a fresh Project on a copy of the directory. non-trivial = at least one mutating "
             "operation applied without raising and at least one comparison made; distinct by case content")
     assumptions = [
@@ -75,6 +100,9 @@ class C12(core.PropertyCheck):
         "`objects.inv` in metadata.static_files is added by build() only, never by postprocess(): excluded from the comparison",
         "YAML inheritance (`inherit:` / `source:` across files), multi-page YAML files carrying figures, synthetic pages and the parse "
         "cache are outside the generated input space",
+        "contents in which two extracts files define one ref (hypothesis `owns` fails) are compared with nothing: the clean build itself goes "
+        "by the order os.walk lists the files in. Histories may pass through such contents (an entry pasted before it is cut); every "
+        "comparison made once each ref has one owner again counts (fix 70b888c, theorems shared_key_refuted / shared_key_restored)",
     ]
     extra_trusted = ["harness/impl/c12_e2e.py (recording backend, observation canonicaliser, directory copies)"]
 
@@ -309,29 +337,53 @@ class C12(core.PropertyCheck):
             # the parent of inheriting entries changes after everything was built once: heirs must be regenerated from the new parent
             ops = ops[:5] + [{"op": "postprocess"}, {"op": "update", "path": "includes/extracts-a.yaml", "text": self.gen_text(rng, "includes/extracts-a.yaml", ctx), "via": "disk"},
                              {"op": "postprocess"}]
+        settled = {}
         if "includes/extracts-b.yaml" in exists and "includes/extracts-a.yaml" in exists and self._xfile and rng.random() < 0.25:
             # an entry MOVES from one file to the other, pasted first and cut second: for a moment both files define it (which one
-            # wins then is nobody's business and nothing is compared), afterwards exactly one does
+            # wins then is nobody's business - a clean build goes by the order the directory is listed in - and nothing is
+            # compared), afterwards exactly one does. The moment ends in one of four ways: the entry is cut from the first file; the
+            # second file is deleted; the paste is undone; the first file is saved once more before the entry is cut from it. In
+            # each of them the page has to be there afterwards, generated from the file that still defines it.
             via = "disk" if mode == "disk" else "buffer"
             w = self.words
             a0 = f"ref: foo\ncontent: |\n  original {w(rng, 2)}\n---\nref: bar\ncontent: |\n  {w(rng, 2)}\n...\n"
-            b1 = f"ref: qux\ncontent: |\n  {w(rng, 2)}\n---\nref: foo\ncontent: |\n  moved {w(rng, 2)}\n...\n"
+            b0 = f"ref: qux\ncontent: |\n  {w(rng, 2)}\n...\n"
+            b1 = b0[:-4] + f"---\nref: foo\ncontent: |\n  moved {w(rng, 2)}\n...\n"
             a1 = f"ref: bar\ncontent: |\n  {w(rng, 2)}\n...\n"
-            ops = ops[:4] + [{"op": "update", "path": "includes/extracts-a.yaml", "text": a0, "via": via}, {"op": "postprocess"},
-                             {"op": "update", "path": "includes/extracts-b.yaml", "text": b1, "via": via},
-                             {"op": "update", "path": "includes/extracts-a.yaml", "text": a1, "via": via}, {"op": "postprocess"}]
+            A, B = "includes/extracts-a.yaml", "includes/extracts-b.yaml"
+            paste = {"op": "update", "path": B, "text": b1, "via": via}
+            way = rng.choice(["cut", "cut", "delete-second", "undo-paste", "save-then-cut"])
+            if way == "cut":
+                leave = [{"op": "update", "path": A, "text": a1, "via": via}]
+                settled = {A: a1, B: b1}
+            elif way == "delete-second":
+                leave = [{"op": "delete", "path": B}]
+                exists.discard(B)
+                settled = {A: a0, B: b0}
+            elif way == "undo-paste":
+                leave = [{"op": "update", "path": B, "text": b0, "via": via}]
+                settled = {A: a0, B: b0}
+            else:
+                a0s = a0.replace("original", "original, saved again,")
+                leave = [{"op": "update", "path": A, "text": a0s, "via": via}, {"op": "update", "path": A, "text": a1, "via": via}]
+                settled = {A: a1, B: b1}
+            ops = ops[:4] + [{"op": "update", "path": A, "text": a0, "via": via}, {"op": "postprocess"}, paste] + leave + [{"op": "postprocess"}]
         if rng.random() < 0.25:
             # bounce: a file other files look for goes away and comes back (whoever looked for it must be re-parsed both times)
             cands = sorted(p for p in exists if p != "index.txt" and (is_source(p) or mode == "disk"))
             if cands:
                 p = rng.choice(cands)
                 back = src[p] if (p in src and rng.random() < 0.5) else self.gen_text(rng, p, ctx)
+                if p in settled:
+                    # after a move the two files come back as the move left them: every ref keeps its one owner
+                    back = settled[p]
                 bounce = [{"op": "delete", "path": p}]
                 if rng.random() < 0.6:
                     bounce.append({"op": "postprocess"})
                 bounce.append({"op": "create", "path": p, "text": back})
                 bounce.append({"op": "postprocess"})
-                ops = ops[:4] + bounce
+                # a history that holds a move is not cut short in the middle of it
+                ops = (ops if settled else ops[:4]) + bounce
         return {"kind": kind, "mode": mode, "files": files, "ops": ops}
 
     def corpus(self):
@@ -498,6 +550,10 @@ class C12(core.PropertyCheck):
         if impl.get("repeat"):
             out.append(("repeat:postprocess-not-reproducible", impl["repeat"]))
         for chk in impl["checks"]:
+            if shared_outputs(case, chk["after"]):
+                # two files define one ref right now: what a clean build shows is not determined by the contents (see
+                # shared_outputs), so there is nothing to compare with. Once every ref has one owner again, comparison resumes.
+                continue
             flipped = set(o["path"] for o in case["ops"][:chk["after"]] if o["op"] in ("create", "delete"))
             for d in chk["diffs"]:
                 where = f"after {chk['after']} ops"
@@ -583,6 +639,10 @@ class C12(core.PropertyCheck):
             else:
                 tags.append(f"op:{o['op']}-{category(o['path'])}" + ("-buffer" if o.get("via") == "buffer" else ""))
         tags.append(f"checks:{len(impl['checks'])}")
+        if any(shared_outputs(case, k) for k in range(len(case["ops"]) + 1)):
+            tags.append("history:one-ref-in-two-files-for-a-while")
+        if any(shared_outputs(case, chk["after"]) for chk in impl["checks"]):
+            tags.append("comparison-skipped:one-ref-in-two-files")
         if impl.get("exc"):
             tags.append("raised:" + impl["exc"]["type"])
         if impl.get("open_raised"):
